@@ -204,4 +204,68 @@ def coveredB (k : StoreKind) (segs : List Seg) (s : St) : Bool :=
   segs.all fun seg => seg.offs.all fun o =>
     !(decide ((o : Int) ≤ load k s seg.tp)) || s.sink.contains (seg.tp, o)
 
+/-! ### A statistics fast path (not in the code today)
+
+The sql lister attaches `MinOffset`/`MaxOffset` to a `SegmentRef` (`discovery.go`: `MaxOffset` =
+base offset of the partition's next segment − 1, only when a next segment is listed; the time index
+may fill both in from the segment footer).  `Run` does not read them at HEAD.  A loop that uses
+`MaxOffset` to avoid downloading a fully delivered segment — `if rule(seg.MaxOffset, state.Offset)
+{ continue }` between `LoadOffset` and `Decode` — is modelled here with the comparison as a
+parameter; `Props/C33.lean` proves that the strict rule refines the plain loop and that the
+off-by-one rule loses the one-record segment that holds exactly the next record to deliver. -/
+
+/-- a listed segment together with the `MaxOffset` statistic the lister attached to its
+`SegmentRef` (`none`: absent — the s3Lister fills it in only when a later segment of the
+partition is listed) -/
+structure SSeg where
+  seg : Seg
+  maxOff : Option Nat
+deriving Repr
+
+/-- "the segment ends below the next offset to deliver": `MaxOffset < checkpoint + 1` -/
+def skipLt (m : Option Nat) (cp : Int) : Bool :=
+  match m with
+  | some m => decide ((m : Int) < cp + 1)
+  | none => false
+
+/-- the off-by-one variant `MaxOffset <= checkpoint + 1` -/
+def skipLe (m : Option Nat) (cp : Int) : Bool :=
+  match m with
+  | some m => decide ((m : Int) ≤ cp + 1)
+  | none => false
+
+/-- loop body with a statistics fast path between `LoadOffset` and `Decode`:
+`if rule(seg.MaxOffset, state.Offset) { continue }` -/
+def segBodySkip (rule : Option Nat → Int → Bool) (k : StoreKind) (tp : Nat) (ss : SSeg) (f : Fault) (s : St) :
+    St × Bool :=
+  if ss.seg.tp ≠ tp then (s, true)
+  else if f = .load then (s, false)
+  else if rule ss.maxOff (load k s tp) then (s, true)
+  else segBody k tp ss.seg f s
+
+def processSkip (rule : Option Nat → Int → Bool) (k : StoreKind) (tp : Nat) : List SSeg → List Fault → St → St
+  | [], _, s => s
+  | ss :: rest, fs, s =>
+    let r := segBodySkip rule k tp ss (fs.headD .none) s
+    if r.2 then processSkip rule k tp rest fs.tail r.1 else r.1
+
+def cycleSkip (rule : Option Nat → Int → Bool) (k : StoreKind) (sss : List SSeg) (o : Oracle) (s : St) : St :=
+  if o.listFail then s
+  else
+    let s1 : St := match s.lease with
+      | some _ => s
+      | none => { s with lease := claim (sss.map (·.seg)) o.claimFail }
+    match s1.lease with
+    | none => s1
+    | some tp => processSkip rule k tp sss o.faults s1
+
+def stepSkip (rule : Option Nat → Int → Bool) (k : StoreKind) (sss : List SSeg) (s : St) : Op → St
+  | .cycle o => cycleSkip rule k sss o s
+  | .leaseLost => { s with lease := none }
+
+/-- the statistic is an upper bound of the segment's offsets (true for both ways the lister
+computes it: next segment's base offset − 1, or the last record of the segment itself) -/
+def StatsOK (sss : List SSeg) : Prop :=
+  ∀ ss ∈ sss, ∀ m, ss.maxOff = some m → ∀ o ∈ ss.seg.offs, o ≤ m
+
 end KafVerif.Processor
